@@ -15,7 +15,9 @@
 //   At the end of a body every own join is waited for (structured programs: a body outlives nothing it spawned).
 //
 // Output (one line per case):
-//   nested <N> | status done|hang|crash | reps <completed> | work <leaf executions of the last repetition> | ms <max elapsed> | hangs <n>
+//   nested <N> | status done|hang|crash | reps <completed> | work <leaf executions of the last repetition> | ms <max elapsed> | hangs <n> | buried <k>
+//   buried k >= 0 (hangs only): some thread sits in Future::wait() on future k while the SAME thread is running future k's body further
+//   down its stack (it took the waiting task from inside a wait() of that body) -- the future can never become ready.
 #include <atomic>
 #include <chrono>
 #include <cstdio>
@@ -117,7 +119,15 @@ struct Parser {
 struct SharedC {
   std::atomic<long> work;
   std::atomic<int> done;
+  // diagnosis of a hang: which thread runs the body of future <name> (0 = not running), which thread sits in a u<name> wait
+  std::atomic<long> futThread[64], uwaitThread[64];
 };
+static long myThread() {
+  static std::atomic<long> next{1};
+  static thread_local long id = 0;
+  if (!id) id = next.fetch_add(1);
+  return id;
+}
 static SharedC* g_sh = nullptr;
 static dispenso::ThreadPool* g_pool = nullptr;
 
@@ -158,7 +168,13 @@ static void runBody(const std::vector<Op>& ops, const Captured& cap) {
         for (auto& kv : own)
           if (kv.second.isFuture && kv.first != o.name) sub[kv.first] = kv.second.fut;
         const std::vector<Op>* body = &o.body;
-        auto f = [body, sub]() { runBody(*body, sub); };
+        int nm = o.name & 63;
+        bool isFut = o.jk == 'f' || o.jk == 'a';
+        auto f = [body, sub, nm, isFut]() {
+          if (isFut) g_sh->futThread[nm].store(myThread());
+          runBody(*body, sub);
+          if (isFut) g_sh->futThread[nm].store(0);
+        };
         if (o.jk == 'f' || o.jk == 'a') {
           j.isFuture = true;
           j.waited = false;
@@ -183,7 +199,11 @@ static void runBody(const std::vector<Op>& ops, const Captured& cap) {
       }
       case 'u': {
         auto it = cap.find(o.name);
-        if (it != cap.end()) it->second.wait();
+        if (it != cap.end()) {
+          g_sh->uwaitThread[o.name & 63].store(myThread());
+          it->second.wait();
+          g_sh->uwaitThread[o.name & 63].store(0);
+        }
         break;
       }
       case 'p': {
@@ -231,6 +251,10 @@ int main() {
     for (int r = 0; r < reps; ++r) {
       g_sh->work.store(0);
       g_sh->done.store(0);
+      for (int k = 0; k < 64; ++k) {
+        g_sh->futThread[k].store(0);
+        g_sh->uwaitThread[k].store(0);
+      }
       fflush(stdout);
       auto t0 = std::chrono::steady_clock::now();
       pid_t pid = fork();
@@ -269,7 +293,12 @@ int main() {
       if (hangs || crashes) break;
     }
     const char* status = hangs ? "hang" : (crashes ? "crash" : "done");
-    printf("nested %d | status %s | reps %d | work %ld | ms %ld | hangs %d\n", N, status, completed, work, maxMs, hangs);
+    // a thread that waits for future k from inside (a wait of) the body of future k itself: the runner is buried under its waiter
+    int buried = -1;
+    if (hangs)
+      for (int k = 0; k < 64; ++k)
+        if (g_sh->uwaitThread[k].load() != 0 && g_sh->uwaitThread[k].load() == g_sh->futThread[k].load()) buried = k;
+    printf("nested %d | status %s | reps %d | work %ld | ms %ld | hangs %d | buried %d\n", N, status, completed, work, maxMs, hangs, buried);
     fflush(stdout);
   }
   return 0;
